@@ -37,10 +37,8 @@ Section RemoveGen.
     assert (Hlp : live s p) by (apply attached_reg in Hpatt; apply HR in Hpatt; tauto).
     assert (Hakid : In a (skids s p)).
     { destruct (HL a Hla Haa) as [_ [Hs _]]. destruct (Hs p Hpa) as [f' [_ Hin]]. eapply edge_kid; exact Hin. }
-    assert (Hap : a < p) by (apply HK; exact Hakid).
-    assert (HDle : forall d, In d D -> d <= a) by (apply (D_below s); assumption).
-    assert (HCle : forall x, In x C -> x < a).
-    { intros x Hx. destruct (LC x Hx) as [d [Hd Hk]]. apply HK in Hk. assert (A := HDle d Hd). lia. }
+    assert (Hap : ~ reach s a p) by (apply (proj2 HK); exact Hakid).
+    assert (HpD : ~ In p D) by (apply (D_not_above s D a p HK LA Hap)).
     assert (Hlen2 : List.length (heap s2) = List.length (heap s)) by exact (pf_len _ _ PF).
     assert (Hlen3 : List.length (heap s3) = List.length (heap s)) by congruence.
     assert (Hid3 : forall x, id_of s3 x = id_of s x).
@@ -94,14 +92,13 @@ Section RemoveGen.
     { intros x q Hq Hqp Hxa Hxl. destruct (Hpi3 x) as [E|[Hin _]]; [exact E|]. exfalso.
       apply in_skids in Hin. destruct Hin as [f0 [i0 Hin]].
       destruct (HL p Hlp Hpatt) as [Hc _]. destruct (Hc x f0 i0 Hin) as [_ [Hpx _]]. congruence. }
-    assert (HpD : ~ In p D) by (intros Hd; apply HDle in Hd; lia).
     assert (Hp3att : attached s3 p) by (apply Hatt3'; assumption).
     assert (Hp3live : live s3 p) by (unfold live in *; rewrite Hlen3; exact Hlp).
     split; [|split; [exact Hp3live | split; [exact Hp3att|]]].
     - split; [|split; [|split]].
       + intros i x Hx. rewrite Hreg3 in Hx. apply (dr_sub _ _ _ _ R) in Hx. destruct (HR _ _ Hx) as [Hl Hi].
         split; [unfold live in *; rewrite Hlen3; exact Hl | rewrite Hid3; exact Hi].
-      + intros x k Hk. apply HK. apply Hsk3; exact Hk.
+      + apply (rank_sub_kids s s3); [rewrite Hlen3; apply le_n | exact Hsk3 | exact HK].
       + intros x Hx. destruct (Hslots x) as [E _]. rewrite E in Hx.
         destruct (dr_either _ _ _ _ R x) as [E2|E2]; rewrite E2 in Hx; [|simpl in Hx; congruence].
         destruct (HP x Hx) as [Hxa Hxp]. destruct (parent s x) as [q|] eqn:Hq; [|congruence].
@@ -134,7 +131,7 @@ Section RemoveGen.
           split; [apply Hatt3'; assumption|]. split; [apply Hpar_same; assumption|].
           destruct (Hslots k) as [_ [Epf _]]. rewrite Epf, Ek. split; [exact Hk3|].
           destruct (Nat.eq_dec x p) as [Hx|Hx]; [apply Hip; exact Hx|].
-          assert (Hkl : live s k) by (apply HK in Hkk; unfold live in *; lia).
+          assert (Hkl : live s k) by (eapply rank_kid_live; eassumption).
           rewrite (Hpi_other k x Hk2 Hx Hk1 Hkl), Ek, Hk4. apply Hnp; exact Hx.
         * intros q Hq. destruct (Hpar3 x q Hq) as [Ex Hq0]. destruct (Hs q Hq0) as [f0 [Hf0 Hin]].
           destruct (Hslots x) as [_ [Epf _]]. exists f0. rewrite Epf, Ex. split; [exact Hf0|].
@@ -157,7 +154,7 @@ Section RemoveGen.
       + intros y Hy. assert (Hyp : y <> p) by (intros ->; apply Hnr; apply (Hreach_p x p Hy eq_refl)).
         destruct (Hslots y) as [_ [_ [_ [Ecls _]]]]. rewrite Ecls, (pf_cls _ _ PF).
         rewrite (Hfs3 y Hyp). split; reflexivity.
-      + unfold fuel_of. rewrite Hlen3. unfold live in Hlx0. lia.
-      + unfold fuel_of. unfold live in Hlx0. lia.
+      + unfold fuel_of. rewrite Hlen3. lia.
+      + unfold fuel_of. lia.
   Qed.
 End RemoveGen.
